@@ -21,6 +21,27 @@ def parse_air(log):
     return out
 
 
+# DID[0] = n: the initiator assigns device identifier n in ATR_REQ (connect()
+# has no option for it; a foreign initiator may do so)
+DID = [None]
+_patched = []
+
+
+def _patch_initiator():
+    import nfc.dep
+    if _patched:
+        return
+    base = nfc.dep.Initiator
+
+    class Initiator(base):
+        def activate(self, target=None, **options):
+            if DID[0] is not None:
+                options.setdefault('did', DID[0])
+            return base.activate(self, target, **options)
+    nfc.dep.Initiator = Initiator
+    _patched.append(base)
+
+
 def run_pair(ini_llcp, tgt_llcp, ini_app=None, tgt_app=None, horizon=30.0,
              fate=None, chooser=None, urandom=None, max_steps=200000,
              give_up=None):
@@ -32,6 +53,7 @@ def run_pair(ini_llcp, tgt_llcp, ini_app=None, tgt_app=None, horizon=30.0,
     Returns (sched, ctx, net)."""
     import nfc
     import nfc.clf
+    _patch_initiator()
     net = air.new_net(fate)
     shims.set_urandom(urandom)
     s = sched.Sched(chooser or sched.Chooser(), max_steps=max_steps,
